@@ -229,7 +229,26 @@ def run(chk: core.Check):
         if ph not in ("FAILURE", "ERROR"):
             chk.fail(f"a header example could not be sent (mark {kind}) but the phase is reported {ph}: the dropped example is not reported",
                      {"mark": kind, "header_examples": values, "requests_sent": len(reqs)})
-    chk.stages["ladder"] = {"arms": len(cases) + 1, "mark_cases": len(mark_cases)}
+    # a failure that a check attributes to a case it DERIVED itself (ignored_auth re-sends the request without credentials and reports
+    # against that child case): with and without continue_on_failure the scenario and the phase must be FAILURE
+    from schemathesis.specs.openapi.checks import ignored_auth
+
+    raw_sec = U.schema_with_ops(1)
+    raw_sec["components"] = {"securitySchemes": {"bearer": {"type": "http", "scheme": "bearer"}}}
+    raw_sec["paths"]["/r0/{id}"]["get"]["security"] = [{"bearer": []}]
+    m_cof = core.coq_eval(IMPORTS, [f"ladder ENone {c_flags(cof_failed=True)}", f"ladder EFailure {c_flags()}"])
+    for cof, m in zip((True, False), m_cof):
+        evs, reqs = run_engine(raw_sec, U.make_responder(["ok"]), phases=["fuzzing"], workers=1, max_examples=2, seed=3, continue_on_failure=cof,
+                               checks=[ignored_auth], headers={"Authorization": "Bearer t"})
+        fin = [e.status.name for e in evs if event_kind(e) == "ScenarioFinished"]
+        ph = [e.status.name for e in evs if event_kind(e) == "PhaseFinished" and e.phase.name.name == "FUZZING"]
+        chk.seen({"derived_case_failure": cof}, True)
+        if (fin[0] if fin else None) != m[1]:
+            chk.disagree("run_test: a check failure attributed to a derived case (ignored_auth)", {"continue_on_failure": cof}, fin, m[1])
+        if not ph or ph[0] not in ("FAILURE", "ERROR"):
+            chk.fail(f"ignored_auth failed on a request the check derived itself (the API ignores the declared auth) but the phase is reported {ph}",
+                     {"continue_on_failure": cof, "requests": len(reqs)})
+    chk.stages["ladder"] = {"arms": len(cases) + 1, "mark_cases": len(mark_cases), "derived_case_arms": 2}
 
     # ---- (c) CLI: exit code
     n_cli = (10 if quick else 100) * (5 if chk.broken else 1)
